@@ -1,6 +1,9 @@
 use sos_verif::framework::*;
 use std::path::Path;
 
+#[global_allocator]
+static GLOBAL: sos_verif::alloc_count::Counting = sos_verif::alloc_count::Counting;
+
 fn usage() -> ! {
     eprintln!("usage: sv check <ID> [quick|thorough] | sv replay <file> | sv worker ... | sv list");
     std::process::exit(2)
